@@ -196,7 +196,19 @@ def expected_density(f, dens, keys, tbl):
     kind, v = dens
     if kind == "i":
         return f.density is not None and close(f.density, float(v)), float(v)
-    want = float(v) / f.natural_mass_ratio()
+    # natural density: the ratio of the mass with every isotope replaced by its natural element (ion
+    # charges kept) to the actual mass, computed here from the atoms' own masses – not by asking
+    # Formula.natural_mass_ratio(), which is code under test
+    from .. import translate as _tr
+    me = float(_tr.exact(_tr.number_text("periodictable/constants.py", "electron_mass")))
+    nat = act = 0.0
+    for a, c in f.atoms.items():
+        z, _, q = G.key_of(a)
+        nat += c * (tbl[z].mass - q * me)
+        act += c * a.mass
+    if act == 0:
+        return True, None
+    want = float(v) / (nat / act)
     return f.density is not None and close(f.density, want), want
 
 
@@ -364,6 +376,15 @@ class Checker:
 
 # --------------------------------------------------------------------------- streams
 
+def _names():
+    from .. import translate as _tr
+    eb = _tr.literal(_tr.module_ast("periodictable/core.py"), "element_base")
+    return {z: v[0] for z, v in eb.items() if z > 0}
+
+
+NAMES = _names()     # Z -> capitalised element name as written in core.py
+
+
 def sweep_cases(rng, ref, full):
     """every nameable atom (element, isotope, ion, isotope ion – the latter sampled unless `full`)
     and invalid neighbours of each element"""
@@ -389,6 +410,11 @@ def sweep_cases(rng, ref, full):
                     bad.append(("%s[%d]" % (sym, a), "undefined-isotope"))
         else:
             bad.append(("%s[%d]" % (sym, e["alias"]), "undefined-isotope"))
+        # the element's *name* is not a symbol (a symbol is one capital and at most one small letter)
+        nm = NAMES.get(z)
+        if nm and nm not in ref:
+            for t in (nm, nm + "2", "2" + nm, nm + "{+}", nm + "O2", "(" + nm + ")2"):
+                bad.append((t, "unknown-symbol"))
         ions = e["ions"] or [0]
         for q in {min(ions) - 1, max(ions) + 1, 0, 10, -10} | ({q + 1 for q in ions} - set(ions)):
             if q not in e["ions"]:
@@ -484,6 +510,48 @@ def run_mixture_chunk(run: Run, tname, n):
     M.check_mixtures(run, tname, ref, tbl, prefix, strings, strict=False)
 
 
+def run_long_history(run: Run, tname, n):
+    """long strings and long parse histories: an atom named twice is one atom however many other atoms
+    (several hundred distinct ions and isotopes) were named in between – in one string, and across
+    many parses of the same table"""
+    ref, tbl, prefix = tables(tname)
+    rng = run.rng
+    pool = []
+    for sym, e in ref.items():
+        if e["z"] < 1 or e["alias"]:
+            continue
+        for q in e["ions"]:
+            pool.append(("%s{%s%s}" % (sym, abs(q) if abs(q) > 1 else "", "+" if q > 0 else "-"), (e["z"], 0, q)))
+        for a in e["isos"][:2]:
+            pool.append(("%s[%d]" % (sym, a), (e["z"], a, 0)))
+    for _ in range(n):
+        k = rng.choice([140, 200, 300, 450])
+        items = rng.sample(pool, min(k, len(pool)))
+        first_t, first_k = items[0]
+        text = first_t + "".join(t for t, _ in items[1:]) + first_t + "2"
+        inp = dict(table=tname, string=text[:60] + "...(%d atoms)" % len(items), stream="long")
+        run.count(key=(tname, "long", text), nontrivial=True, tag="%s:long" % tname)
+        p = G.py_parse(text, tbl)
+        if p[0] != "OK":
+            run.violation("a long string of the documented grammar is rejected (%s)" % p[1], inp, kind="grammar-string-rejected")
+            continue
+        got = {}
+        for a, c in p[2].atoms.items():
+            got.setdefault(G.key_of(a), []).append(c)
+        if len(p[2].atoms) != len(items) or got.get(first_k) != [3]:
+            run.violation("an atom named at both ends of a long string (%d other atoms in between) is not added up: "
+                          "%d dict entries for %d distinct atoms, entries for the repeated atom: %r"
+                          % (len(items) - 1, len(p[2].atoms), len(items), got.get(first_k)), inp, kind="wrong-composition")
+        # across parses: the same atom object every time
+        a1 = list(G.py_parse(first_t, tbl)[2].atoms)[0]
+        for t, _ in items[1:]:
+            G.py_parse(t, tbl)
+        a2 = list(G.py_parse(first_t, tbl)[2].atoms)[0]
+        if a1 is not a2:
+            run.violation("parsing %r before and after %d other atoms gives two different atom objects"
+                          % (first_t, len(items) - 1), inp, kind="wrong-composition")
+
+
 def run_strict_blank(run: Run, tname, n):
     """D19: `count element+ BLANK element+ …` read strictly as the guide documents it (a blank
     separates groups exactly as '+' does); oracle = the same string with '+' for the blank, read by
@@ -561,6 +629,7 @@ def run(run: Run) -> int:
         tasks += [(run_small_scope, ("public", n, 0, 1)) for n in (1, 2, 3)]
         tasks += [(run_mixture_chunk, ("public", 300)), (run_mixture_chunk, ("private", 150))]
         tasks += [(run_strict_blank, ("public", 40))]
+        tasks += [(run_long_history, ("public", 3)), (run_long_history, ("private", 1))]
     else:
         tasks = [(run_chunk, ("public", 5000, 2000, 4000, 4 + i % 4, "full" if i == 0 else None)) for i in range(60)]
         tasks += [(run_chunk, ("private", 4000, 1600, 3000, 4 + i % 3, "full" if i == 0 else None)) for i in range(16)]
@@ -568,6 +637,7 @@ def run(run: Run) -> int:
         tasks += [(run_small_scope, ("public", 4, i, 8)) for i in range(8)]
         tasks += [(run_mixture_chunk, ("public", 4000)) for i in range(6)] + [(run_mixture_chunk, ("private", 2000)) for i in range(2)]
         tasks += [(run_strict_blank, ("public", 2000))]
+        tasks += [(run_long_history, ("public", 40)), (run_long_history, ("private", 20))]
     G.run_chunks(run, tasks)
     run.exhaustive = False
     return run.finish(RULE, assumptions=[
